@@ -207,14 +207,13 @@ class Engine:
             if name not in c.params:
                 raise StaleContract(f"{self.qualname}: parameter {name!r} has no type in the contract")
         for name in c.params:
-            if name not in argnames and name not in c.closure:
+            if name not in argnames:
                 raise StaleContract(f"{self.qualname}: contract parameter {name!r} is not a parameter any more")
-        for name, t in c.params.items():
-            v = t.fresh(name)
+        self.check_closure(c)
+        for name, t in list(c.params.items()) + list(c.closure.items()):
+            v = self.make_param(name, t, st)
             st.env[name] = v
             st.assume(*self.type_facts(v))
-        self.psum_fun("int", st)
-        self.psum_fun("f64", st)
         self.setup_spec(c, st)
         st.old = dict(st.env)
         st.oldheap = {k: dict(v) for k, v in st.heap.items()}
@@ -243,6 +242,11 @@ class Engine:
             else:
                 raise EngineError(f"{o.kind} outside a loop")
         # contract hygiene: every loop spec and hook must have bound to something
+        if getattr(self, "psum_used", False):
+            # prefix-sum axioms (quantified over arrays) only where np.sum / psum is used: quantifier-free VCs stay decidable
+            for o in self.obls:
+                o.hyps = list(self.global_axioms) + o.hyps
+            self.canary_points = [(n, list(self.global_axioms) + h) for n, h in self.canary_points]
         for lab in c.loops:
             if lab not in self.loop_seen:
                 raise StaleContract(f"{self.qualname}: loop contract {lab} binds to no loop")
@@ -250,6 +254,27 @@ class Engine:
             if k not in self.hook_seen:
                 raise StaleContract(f"{self.qualname}: ghost hook anchored at {h[1]!r} binds to no statement")
         return self.obls
+
+    def make_param(self, name, t, st):
+        return t.fresh(name)
+
+    def check_closure(self, c):
+        """captured variables of a closure: every free name of the body must be declared (and be a local of the
+        enclosing function), so that a new capture cannot go unnoticed"""
+        if not c.closure and ".<locals>." not in self.qualname:
+            return
+        bound = {a.arg for a in self.fn.args.args} | extract.assigned_names(self.fn.body)
+        free = set()
+        for n in ast.walk(ast.Module(body=self.fn.body, type_ignores=[])):
+            if isinstance(n, ast.Name) and isinstance(n.ctx, ast.Load) and n.id not in bound:
+                free.add(n.id)
+        free -= {"np", "nb", "abs", "min", "max", "int", "float", "len", "range", "enumerate"}
+        missing = free - set(c.closure)
+        if missing:
+            raise StaleContract(f"{self.qualname}: the closure captures {sorted(missing)}, which the contract does not declare")
+        unused = set(c.closure) - free
+        if unused:
+            raise StaleContract(f"{self.qualname}: the contract declares captured names {sorted(unused)} that the body no longer uses")
 
     def setup_spec(self, c, st):
         prog = extract.assigned_names(self.fn.body) | {a.arg for a in self.fn.args.args}
@@ -276,7 +301,7 @@ class Engine:
         bs = []
         for (n, s) in lem.binders:
             x = z3.Const(n, sort_of(s))
-            env2.env[n] = x
+            env2.env[n] = self.wrap_bound(x)
             bs.append(x)
         hyps = [self.spec(h, env2) for h in lem.hyps]
         b = self.spec(body, env2)
@@ -293,7 +318,7 @@ class Engine:
             xs = {}
             for (n, s_) in lem.binders:
                 xs[n] = V.fresh(n + fresh_tag, sort_of(s_))
-                env2.env[n] = xs[n]
+                env2.env[n] = self.wrap_bound(xs[n])
             if subst:
                 for n, f in subst.items():
                     env2.env[n] = f(env2, xs)
@@ -371,6 +396,10 @@ class Engine:
         st.env["result"] = val
         self.canary_points.append((f"{self.short}/canary/return@{line}", list(st.pc)))
         self.prove_all(st, c.ensures, f"post@{line}", "post", line)
+        self.frame_obligations(st, line)
+
+    def frame_obligations(self, st, line):
+        pass
 
     def at_raise(self, o):
         c = self.c
@@ -506,6 +535,12 @@ class Engine:
         return [Outcome("normal", st)]
 
     def st_Assign(self, s, st):
+        if isinstance(s.value, ast.List) and not s.value.elts and len(s.targets) == 1 and isinstance(s.targets[0], ast.Name) \
+                and s.targets[0].id in self.c.locals:
+            tmpl = self.make_param(V.fresh_name(s.targets[0].id + "_elem"), self.c.locals[s.targets[0].id], st)
+            st.env[s.targets[0].id] = SList(z3.IntVal(0), Lifted.fresh(tmpl, s.targets[0].id))
+            return [Outcome("normal", st)]
+
         def cont(v, st2):
             for t in s.targets:
                 self.assign(t, v, st2, s)
@@ -1105,7 +1140,7 @@ class Engine:
         return SList.of(items)
 
     def empty_list(self, e, st):
-        raise EngineError("empty list literal: element shape unknown (tier B resolves this from the contract)")
+        raise EngineError("empty list literal: element shape unknown (declare it in the contract's locals)")
 
     def ex_UnaryOp(self, e, st, spec):
         v = self.ev(e.operand, st, spec)
@@ -1595,7 +1630,9 @@ class Engine:
             c = self.truthy(self.ev(e.args[0], st, True), st)
             return V.ite(c, self.ev(e.args[1], st, True), self.ev(e.args[2], st, True))
         if name == "old":
-            st2 = State(env=dict(st.old), pc=st.pc, heap=st.oldheap if st.oldheap is not None else st.heap,
+            # entry values of parameters / entry heap; specification-bound names (macro parameters, quantified
+            # variables) and locals keep their current meaning
+            st2 = State(env={**st.env, **st.old}, pc=st.pc, heap=st.oldheap if st.oldheap is not None else st.heap,
                         old=st.old, nxt=st.nxt)
             st2.oldheap = st.oldheap
             return self.ev(e.args[0], st2, True)
@@ -1638,6 +1675,9 @@ class Engine:
             return self.ev(m.body.node, st2, True)
         return NotImplemented
 
+    def wrap_bound(self, x):
+        return x
+
     def quantifier(self, name, e, st):
         """forall(x, lo, hi, body) | forall(x, body) | forall([x, (y, Sort)], body); directly nested quantifiers of
         the same kind are flattened into one binder list (prenex form is friendlier to E-matching)."""
@@ -1655,7 +1695,7 @@ class Engine:
                 return x
             if isinstance(b, ast.Tuple) and len(b.elts) == 2 and isinstance(b.elts[0], ast.Name):
                 x = V.fresh(b.elts[0].id, sort_of(b.elts[1].id))
-                st2.env[b.elts[0].id] = x
+                st2.env[b.elts[0].id] = self.wrap_bound(x)
                 bound.append(x)
                 return x
             raise EngineError("bad quantifier binder")
@@ -1842,9 +1882,7 @@ class Engine:
             self.global_axioms.append(z3.ForAll(a, f(a, 0) == 0))
             self.global_axioms.append(z3.ForAll([a, k], z3.Implies(k >= 0, f(a, k + 1) == f(a, k) + a[k]),
                                                 patterns=[f(a, k + 1), z3.MultiPattern(f(a, k), a[k])]))
-        for ax in self.global_axioms:
-            if not any(ax is p for p in st.pc):
-                st.pc.insert(0, ax)
+        self.psum_used = True
         return f
 
     def array_sum(self, v, st):
